@@ -88,9 +88,11 @@ func cmdRun(args []string) {
 	dflag := fs.Bool("diff", false, "differential of the middleware against the wrapped transfer app (C07)")
 	pobs := fs.Bool("parseobs", false, "log direct parser observations and constructor round trips (C15)")
 	skipDisc := fs.Bool("skipdisc", false, "do not execute discarded steps at all (a node that never served the simulation / failed tx)")
+	fresp := fs.Bool("faultresp", false, "an injected failure of a message server / query returns a non-nil zero response together with the error")
 	reverse := fs.Bool("reverse", false, "replay the histories in reverse order (a different process history)")
 	must(fs.Parse(args))
 	fullReimport = *full
+	faultResp = *fresp
 	parseObs = *pobs
 	digestObs = *digests
 	diffObs = *dflag
